@@ -437,6 +437,16 @@ def run(prog, ctx):
         if kind == "int":
             integer_getter(prog, ctx, g, f, width, signed)
         elif kind == "float":
+            dele = conv.delegate_getter(f)
+            if dele is not None:
+                dw = conv.GETTERS[dele][0]
+                if dw != width or conv.GETTERS[dele][2] != "float":
+                    ctx.fail("R6", "%s parses with %s" % (g, "strtof" if width == 32 else "strtod"), f.where,
+                             "%s converts through %s (%d-bit) and narrows the result: the text is rounded twice (decimal -> %d-bit -> %d-bit), which is not the "
+                             "correctly rounded value for literals near a midpoint" % (g, dele, dw, dw, width), key="routine:%s" % g)
+                else:
+                    ctx.ok("R6", "%s delegates to %s" % (g, dele), f.where, "same type")
+                continue
             call = conv.strto_call(f)
             want = "strtof" if width == 32 else "strtod"
             if call.j["callee"] == want:
